@@ -119,7 +119,9 @@ where
         if idx < data.len() {
             data[idx] = (GF(data[idx]) - *err).into();
         } else {
-            idx -= data.len();
+            // `data` and `error` are the rest of the interleaved vectors starting at
+            // this block, the error part begins after n_data strides
+            idx -= n_data * stride;
             error[idx] = (GF(error[idx]) - *err).into();
         }
     }
